@@ -447,7 +447,6 @@ func c10DropOnlyUpToAFoundRoot(c *core.Ctx) {
 	c.Floor("C10/drop-only-up-to-a-found-root", 2)
 }
 
-
 // foundThroughFlag recognises the flag idiom: the condition tests a variable (a phi) that merges
 // constants; every incoming edge whose constant satisfies the test - or whose value is not a
 // constant - is an edge on which `want` is known. E.g. `idx := -1; for ... { if eq { idx = i; break } };
